@@ -4496,6 +4496,127 @@ def chainmap_locals(fn):
     return done
 
 
+def chain_to_appends(fn):
+    """`H = list(itertools.chain(X1, .., Xn))` / `H = X1 + X2` where every
+    Xi is a local bound once - just before, in the same block - to a list
+    or tuple display or to a list comprehension/generator and used nowhere
+    else -> `H = []` followed by the appends/loops that build the parts in
+    order (a comprehension becomes a loop with `H.append(..)`, a
+    conditional element an if/else of appends)."""
+    done = False
+    for par in [fn] + list(_walk_own(fn)):
+        for fld in ("body", "orelse", "finalbody"):
+            blk = getattr(par, fld, None)
+            if not isinstance(blk, list):
+                continue
+            for st in list(blk):
+                if not (isinstance(st, ast.Assign) and len(st.targets) == 1
+                        and isinstance(st.targets[0], ast.Name)):
+                    continue
+                v = st.value
+                parts = None
+                if isinstance(v, ast.Call) and norm(v.func) == "list" and \
+                        len(v.args) == 1 and isinstance(
+                            v.args[0], ast.Call) and norm(
+                            v.args[0].func) in ("itertools.chain", "chain") \
+                        and not v.args[0].keywords:
+                    parts = list(v.args[0].args)
+                elif isinstance(v, ast.BinOp) and isinstance(v.op, ast.Add):
+                    parts = []
+
+                    def flat(e):
+                        if isinstance(e, ast.BinOp) and isinstance(
+                                e.op, ast.Add):
+                            flat(e.left)
+                            flat(e.right)
+                        else:
+                            parts.append(e)
+                    flat(v)
+                if not parts or len(parts) < 2:
+                    continue
+                H = st.targets[0].id
+                i_st = blk.index(st)
+                defs = {}
+                ok = True
+                for p_ in parts:
+                    if isinstance(p_, (ast.List, ast.Tuple, ast.ListComp,
+                                       ast.GeneratorExp)):
+                        continue
+                    if not isinstance(p_, ast.Name):
+                        ok = False
+                        break
+                    ds = [s_ for s_ in blk[:i_st] if isinstance(
+                        s_, ast.Assign) and len(s_.targets) == 1 and norm(
+                        s_.targets[0]) == p_.id]
+                    uses = [n for n in ast.walk(fn) if isinstance(
+                        n, ast.Name) and n.id == p_.id]
+                    if len(ds) != 1 or len(uses) != 2 or not isinstance(
+                            ds[0].value, (ast.List, ast.Tuple, ast.ListComp,
+                                          ast.GeneratorExp)):
+                        ok = False
+                        break
+                    defs[p_.id] = ds[0]
+                if not ok or not any(isinstance(
+                        (defs[p_.id].value if isinstance(p_, ast.Name)
+                         else p_), (ast.ListComp, ast.GeneratorExp))
+                        for p_ in parts):
+                    continue
+                # nothing but these definitions between the first of them
+                # and the combining statement
+                if defs:
+                    first = min(blk.index(d) for d in defs.values())
+                    if any(s_ not in defs.values() and not (
+                            isinstance(s_, ast.Assign) and isinstance(
+                                s_.value, (ast.Name, ast.Attribute,
+                                           ast.Subscript, ast.Constant)))
+                            for s_ in blk[first:i_st]):
+                        continue
+
+                def app(e):
+                    return ast.Expr(value=ast.Call(func=ast.Attribute(
+                        value=ast.Name(id=H, ctx=ast.Load()), attr="append",
+                        ctx=ast.Load()), args=[e], keywords=[]))
+
+                def emit(e):
+                    if isinstance(e, ast.IfExp):
+                        return [ast.If(test=e.test, body=emit(e.body),
+                                       orelse=emit(e.orelse))]
+                    return [app(e)]
+                new = [ast.Assign(targets=[ast.Name(id=H, ctx=ast.Store())],
+                                  value=ast.List(elts=[], ctx=ast.Load()))]
+                bad = False
+                for p_ in parts:
+                    src = defs[p_.id].value if isinstance(p_, ast.Name) \
+                        else p_
+                    if isinstance(src, (ast.List, ast.Tuple)):
+                        if any(isinstance(e, ast.Starred) for e in src.elts):
+                            bad = True
+                        new.extend(app(e) for e in src.elts)
+                    else:
+                        if len(src.generators) != 1 or \
+                                src.generators[0].is_async:
+                            bad = True
+                            break
+                        g = src.generators[0]
+                        body = emit(src.elt)
+                        for c in reversed(g.ifs):
+                            body = [ast.If(test=c, body=body, orelse=[])]
+                        new.append(ast.For(target=g.target, iter=g.iter,
+                                           body=body, orelse=[],
+                                           type_comment=None))
+                if bad:
+                    continue
+                for x in new:
+                    ast.copy_location(x, st)
+                    ast.fix_missing_locations(x)
+                for d in defs.values():
+                    blk.remove(d)
+                i_st = blk.index(st)
+                blk[i_st:i_st + 1] = new
+                done = True
+    return done
+
+
 def conditional_pipelines(fn):
     """`L = []`, then `if c: L.append(f)` (f a function reference) any number
     of times, then one `for x in L: BODY` -> `if c: BODY[x:=f]` in order; L is
